@@ -35,6 +35,10 @@ structure Cfg.Valid (c : Cfg) : Prop where
   kaEnd : c.ka + 32 ≤ 2 ^ 64
   paEnd : c.pa + 8 ≤ 2 ^ 64
   coEnd : c.co + 140 < 2 ^ 64
+  /-- SMEM ignores the two low address bits: the packet and the kernel arguments are dword-aligned
+      (the driver allocates them page-aligned) -/
+  ka4 : c.ka % 4 = 0
+  pa4 : c.pa % 4 = 0
   /-- the destination range is disjoint from everything the kernel reads -/
   dSrc : ∀ a, c.inDst a → ¬ (c.src ≤ a ∧ a < c.src + 4 * c.K)
   dKa : ∀ a, c.inDst a → ¬ (c.ka ≤ a ∧ a < c.ka + 32)
@@ -76,6 +80,10 @@ theorem split32 (x : Nat) : x % 2 ^ 32 + x / 2 ^ 32 * 2 ^ 32 = x := by
 
 theorem pcadd (c a b d : Nat) (h : a + b = d) : c + a + b = c + d := by omega
 
+theorem Cfg.Valid.pa4' {c : Cfg} (hv : c.Valid) : (c.pa + 4) % 4 = 0 := by have := hv.pa4; omega
+theorem Cfg.Valid.ka16' {c : Cfg} (hv : c.Valid) : (c.ka + 16) % 4 = 0 := by have := hv.ka4; omega
+theorem Cfg.Valid.ka24' {c : Cfg} (hv : c.Valid) : (c.ka + 24) % 4 = 0 := by have := hv.ka4; omega
+theorem Cfg.Valid.ka0' {c : Cfg} (hv : c.Valid) : (c.ka + 0) % 4 = 0 := by have := hv.ka4; omega
 theorem Cfg.Valid.pa8 {c : Cfg} (hv : c.Valid) : c.pa + 4 + 4 ≤ 2 ^ 64 := by have := hv.paEnd; omega
 theorem Cfg.Valid.ka20 {c : Cfg} (hv : c.Valid) : c.ka + 16 + 4 ≤ 2 ^ 64 := by have := hv.kaEnd; omega
 theorem Cfg.Valid.ka32 {c : Cfg} (hv : c.Valid) : c.ka + 24 + 8 ≤ 2 ^ 64 := by have := hv.kaEnd; omega
@@ -146,7 +154,7 @@ theorem blockA (c : Cfg) (hv : c.Valid) (f0 : Nat → Nat) (himg : Img c f0) (n 
   have hR2 : rd32 t.mem (c.ka + 16) % 2 ^ 32 = c.N := by rw [agree_ka c hv f0 t.mem hag 16 (by decide), himg.n]
   have hR3 : rd32 t.mem (c.ka + 24) % 2 ^ 32 = 0 := by rw [agree_ka c hv f0 t.mem hag 24 (by decide), himg.goff]
   obtain ⟨s1, e1, h1⟩ := lift_smem1 P rfl c.co 0 0 0 4 4 (by decide) (by decide) dec0 _
-    (fun st => by rw [wn0]; exact ex0 st) st t h (by rw [hpc]; rfl) (c.pa + 4) _ _ hs4 hs5 hpa hv.pa8
+    (fun st => by rw [wn0]; exact ex0 st) st t h (by rw [hpc]; rfl) (c.pa + 4) _ _ hs4 hs5 hpa hv.pa4' hv.pa8
   simp only [T.setS_0, T.s_0, T.setS_1, T.s_1, T.setS_2, T.s_2, T.setS_3, T.s_3, T.setS_4, T.s_4, T.setS_5, T.s_5, T.setS_6, T.s_6, T.setS_7, T.s_7, T.setS_8, T.s_8, T.setV_0, T.v_0, T.setV_1, T.v_1, T.setV_2, T.v_2, T.setV_3, T.v_3, T.setPc_eq, T.setVcc_eq, T.setExec_eq, T.setMem_eq, Nat.zero_add] at h1
   obtain ⟨s2, e2, h2⟩ := lift_wait P rfl c.co 8 _ dec8 s1 _ h1 (pcadd c.co 0 8 8 rfl)
   simp only [T.setS_0, T.s_0, T.setS_1, T.s_1, T.setS_2, T.s_2, T.setS_3, T.s_3, T.setS_4, T.s_4, T.setS_5, T.s_5, T.setS_6, T.s_6, T.setS_7, T.s_7, T.setS_8, T.s_8, T.setV_0, T.v_0, T.setV_1, T.v_1, T.setV_2, T.v_2, T.setV_3, T.v_3, T.setPc_eq, T.setVcc_eq, T.setExec_eq, T.setMem_eq, Nat.zero_add] at h2
@@ -157,11 +165,11 @@ theorem blockA (c : Cfg) (hv : c.Valid) (f0 : Nat → Nat) (himg : Img c f0) (n 
   simp only [T.setS_0, T.s_0, T.setS_1, T.s_1, T.setS_2, T.s_2, T.setS_3, T.s_3, T.setS_4, T.s_4, T.setS_5, T.s_5, T.setS_6, T.s_6, T.setS_7, T.s_7, T.setS_8, T.s_8, T.setV_0, T.v_0, T.setV_1, T.v_1, T.setV_2, T.v_2, T.setV_3, T.v_3, T.setPc_eq, T.setVcc_eq, T.setExec_eq, T.setMem_eq, Nat.zero_add] at h4
   rw [hs8, mul64 n hn] at h4
   obtain ⟨s5, e5, h5⟩ := lift_smem1 P rfl c.co 24 0 2 6 16 (by decide) (by decide) dec24 _
-    (fun st => by rw [wn24]; exact ex24 st) s4 _ h4 (pcadd c.co 20 4 24 rfl) (c.ka + 16) _ _ hs6 hs7 hka16 hv.ka20
+    (fun st => by rw [wn24]; exact ex24 st) s4 _ h4 (pcadd c.co 20 4 24 rfl) (c.ka + 16) _ _ hs6 hs7 hka16 hv.ka16' hv.ka20
   simp only [T.setS_0, T.s_0, T.setS_1, T.s_1, T.setS_2, T.s_2, T.setS_3, T.s_3, T.setS_4, T.s_4, T.setS_5, T.s_5, T.setS_6, T.s_6, T.setS_7, T.s_7, T.setS_8, T.s_8, T.setV_0, T.v_0, T.setV_1, T.v_1, T.setV_2, T.v_2, T.setV_3, T.v_3, T.setPc_eq, T.setVcc_eq, T.setExec_eq, T.setMem_eq, Nat.zero_add] at h5
   rw [hR2] at h5
   obtain ⟨s6, e6, h6⟩ := lift_smem2 P rfl c.co 32 1 0 6 24 (by decide) (by decide) dec32 _
-    (fun st => by rw [wn32]; exact ex32 st) s5 _ h5 (pcadd c.co 24 8 32 rfl) (c.ka + 24) _ _ hs6 hs7 hka24 hv.ka32
+    (fun st => by rw [wn32]; exact ex32 st) s5 _ h5 (pcadd c.co 24 8 32 rfl) (c.ka + 24) _ _ hs6 hs7 hka24 hv.ka24' hv.ka32
   simp only [T.setS_0, T.s_0, T.setS_1, T.s_1, T.setS_2, T.s_2, T.setS_3, T.s_3, T.setS_4, T.s_4, T.setS_5, T.s_5, T.setS_6, T.s_6, T.setS_7, T.s_7, T.setS_8, T.s_8, T.setV_0, T.v_0, T.setV_1, T.v_1, T.setV_2, T.v_2, T.setV_3, T.v_3, T.setPc_eq, T.setVcc_eq, T.setExec_eq, T.setMem_eq, Nat.zero_add] at h6
   rw [hR3] at h6
   obtain ⟨s7, e7, h7⟩ := lift_vadd P rfl c.co 40 8 0 0 (by decide) (by decide) (by decide) dec40
@@ -285,7 +293,7 @@ theorem blockB (c : Cfg) (hv : c.Valid) (f0 : Nat → Nat) (himg : Img c f0) (n 
   have hR7 : rd32 t.mem (c.ka + 0 + 12) % 2 ^ 32 = c.dst / 2 ^ 32 := by
     rw [Nat.add_assoc, agree_ka c hv f0 t.mem hag (0 + 12) (by decide)]; exact himg.dstHi
   obtain ⟨s1, e1, h1⟩ := lift_smem4 P rfl c.co 64 2 0 6 0 (by decide) (by decide) dec64 _
-    (fun st => by rw [wn64]; exact ex64 st) st t h hpc (c.ka + 0) _ _ hs6 hs7 hka0 hv.ka16
+    (fun st => by rw [wn64]; exact ex64 st) st t h hpc (c.ka + 0) _ _ hs6 hs7 hka0 hv.ka0' hv.ka16
   simp only [Nat.reduceAdd, T.setS_0, T.s_0, T.setS_1, T.s_1, T.setS_2, T.s_2, T.setS_3, T.s_3, T.setS_4, T.s_4, T.setS_5, T.s_5, T.setS_6, T.s_6, T.setS_7, T.s_7, T.setS_8, T.s_8, T.setV_0, T.v_0, T.setV_1, T.v_1, T.setV_2, T.v_2, T.setV_3, T.v_3, T.setPc_eq, T.setVcc_eq, T.setExec_eq, T.setMem_eq, Nat.zero_add] at h1
   rw [hR4, hR5, hR6, hR7, hexec] at h1
   obtain ⟨s2, e2, h2⟩ := lift_vmov P rfl c.co 72 128 1 (by decide) dec72
